@@ -7,7 +7,27 @@ From Coq Require Import String List Bool ZArith.
 Import ListNotations.
 Open Scope string_scope.
 
+(* the transfer loops as a PROGRAM (not only as text): a tiny statement language that the
+   translator emits for the body of the workers' `async with` and of the client's upload() /
+   download() file branches, and that Model/XferProg.v interprets.  Anything the translator
+   cannot classify becomes XOther / XSOther, on which the interpreter gives no result. *)
+Inductive xsimple : Type :=
+| XSeek (target : string)                 (* await <target>.seek(conn.restart_offset) *)
+| XWrite (target : string)                (* await <target>.write(ITEM) *)
+| XSOther (text : string).
+
+Inductive xstmt : Type :=
+| XDo (s : xsimple)
+| XIfOffset (body : list xsimple)         (* if conn.restart_offset: <body>      (no else) *)
+| XForBlocks (src count : string) (body : list xsimple)
+                                          (* async for ITEM in <src>.iter_by_block(<count>): <body>   (no else) *)
+| XOther (text : string).
+
 Record xfer_facts := {
+  xf_stor_prog : list xstmt;              (* body of stor_worker's async with *)
+  xf_retr_prog : list xstmt;              (* body of retr_worker's async with *)
+  xf_upload_prog : string * list xstmt;   (* upload(): mode the local file is opened with, body of the async with *)
+  xf_download_prog : string * list xstmt; (* download(): likewise *)
   (* server.py *)
   xf_stor_default_mode : string;          (* default of stor(..., mode=<>) *)
   xf_appe_mode : string;                  (* third argument of appe's `return await self.stor(connection, rest, <>)` *)
